@@ -92,6 +92,8 @@ inductive Op
   | getOffsets
   | metrics (vb : Vb)
   | scrape
+  | rebalance (lo hi : Vb)                 -- a completed rebalance of the SAME stream object: Close(false), new range, Open
+  | reopen (vb : Vb)                       -- transient stream end: `reopenStream` from the current position
 deriving Repr, Inhabited
 
 /-- one vBucket's metric families at a scrape (`metric/collector.go`) -/
@@ -297,6 +299,35 @@ def closeSession (s : St) : St × List Obsv :=
             observers := s.observers.map (fun (vb, o) => (vb, o.close.closeEnd)), obsNil := true },
    s.offsets.map fun (vb, _) => .closereq vb)
 
+/-- `stream.Rebalance` followed by its delayed `rebalance()`: the same stream object is closed
+    (`Close(false)`) and opened again on the range the discovery now derives. Unlike a restart the
+    object survives: contexts handed out before stay callable (`sess` is unchanged), their `Ack`
+    closures now see the new `vbIDRange` and the offsets loaded from the store. -/
+def rebalanceSession (s : St) (lo hi : Vb) : St × List Obsv :=
+  if !s.isOpen then (s, [.bad "not open"]) else
+  if !s.savers.isEmpty then (s, [.bad "saver in flight"]) else
+  if lo > hi then (s, [.bad "empty range"]) else
+  let (s1, o1) := closeSession s
+  let s2 := { s1 with cfg := { s1.cfg with lo := lo, hi := hi } }
+  match load s2 with
+  | none => ({ s2 with everOpened := false }, o1 ++ [.failstop "checkpoint-ahead"])
+  | some (offs, dirty, any) =>
+    let obs : AMap Obs := offs.map fun (vb, o) =>
+      (vb, ({ latest := o.latest, uuid := (s.flog.get? vb).getD 0 } : Obs))
+    ({ s2 with isOpen := true, offsets := offs, dirtyMaps := s2.dirtyMaps.set s2.curGen dirty,
+               anyDirty := any, observers := obs, obsNil := false },
+     o1 ++ offs.map fun (vb, o) => .openreq vb o)
+
+/-- `listenEnd` with a transient cause → `reopenStream`: the vBucket is requested again from its
+    current position on the same observer; the accepting response sets the observer's vbUUID to
+    the (possibly new) head of the failover log -/
+def reopenStream (s : St) (vb : Vb) : St × List Obsv :=
+  if !s.isOpen then (s, [.bad "not open"]) else
+  match s.offsets.get? vb, s.observers.get? vb with
+  | some o, some ob =>
+    ({ s with observers := s.observers.set vb (ob.setUuid ((s.flog.get? vb).getD 0)) }, [.openreq vb o])
+  | _, _ => (s, [.bad "vb not streamed"])
+
 /-- the process dies: only the durable store (and the server side) survive -/
 def crash (s : St) : St × List Obsv :=
   ({ cfg := s.cfg, store := s.store, high := s.high, flog := s.flog, sess := s.sess + 1, ctxs := s.ctxs }, [.ok])
@@ -333,7 +364,7 @@ def scrape (s : St) : Obsv :=
 def step (s : St) : Op → St × List Obsv
   | .setStore vb d => if s.isOpen then (s, [.bad "open"]) else ({ s with store := s.store.set vb d }, [.ok])
   | .setHigh vb n => ({ s with high := s.high.set vb n }, [.ok])
-  | .setFlog vb u => if s.isOpen then (s, [.bad "open"]) else ({ s with flog := s.flog.set vb u }, [.ok])
+  | .setFlog vb u => ({ s with flog := s.flog.set vb u }, [.ok])   -- a failover may happen while streaming
   | .open => openSession s
   | .close => closeSession s
   | .crash => crash s
@@ -360,6 +391,8 @@ def step (s : St) : Op → St × List Obsv
     | none => (s, [.bad "no observer"])
     | some o => (s, [.counters o.nMut o.nDel o.nExp])
   | .scrape => (s, [scrape s])
+  | .rebalance lo hi => rebalanceSession s lo hi
+  | .reopen vb => reopenStream s vb
 
 def run (s : St) (ops : List Op) : St := ops.foldl (fun s op => (step s op).1) s
 
